@@ -843,7 +843,7 @@ theorem stop_before_watch_round_keeps_data :
 
 `Gen.shutdownEffects` (regenerated on every run) is the list of tracked effects of `(*Cluster).Shutdown` with the atoms
 of their guards; `interpShutdown` runs it. The departure machine uses the closed form `shutdownActsC consult`; the next
-theorem says they are the same function on today's source, for every flag and oracle value. -/
+statement says they are the same function on today's source, for every flag and oracle value. -/
 
 set_option maxRecDepth 100000 in
 /-- today's `Shutdown`, interpreted from its regenerated structure, IS the closed form the theorems are about: same acts in
